@@ -58,6 +58,13 @@ def step (s : St) (op : String) : St × Option String :=
   | "get" :: rest =>
     let kv := kvs rest
     (s, some (showOut (getLabel s (dec kv "r") (dec kv "n"))))
+  | "setf" :: rest =>
+    -- judge: a label overwrite whose store write failed reported the error and left the label on
+    -- the bundle it had (one atomic store write: C06_label_atomic); had it succeeded, on the new one
+    let kv := kvs rest
+    let res := (kvGet kv "res").getD ""
+    let now := (kvGet kv "now").getD ""
+    (s, some (if (res == "err" && now == "kept") || (res == "ok" && now == "new") then "sound" else "UNSOUND"))
   | "listf" :: rest =>
     -- judge: a listing under unfriendly conditions (a failing descriptor read with a slow consumer;
     -- a label deleted by someone else between the key scan and its read) failed, or returned every
